@@ -39,7 +39,7 @@ def fmt_res(r):
 
 def belongs(pid, ev, verdict):
     if pid == "C17":
-        return ev["k"] in ("invert", "invert2", "permute", "removeinc")
+        return ev["k"] in ("invert", "invert2", "permute", "removeinc", "convert-invert")
     if pid == "C01" and ev["k"] == "convert":
         return True
     if ev["k"] != "calc":
@@ -77,7 +77,7 @@ def run(ctx, pid, note):
     ctx.run([vd, "calc-replay", "-in", docs, "-out", ctx.path("ev-model.ndjson"), "-seed", str(ctx.seed)], timeout=3000)
     n = 1500 if q else 15000
     ctx.run([vd, "calc-record", "-seed", str(ctx.seed), "-n", str(n), "-out", ctx.path("ev-rand.ndjson")], timeout=3000)
-    want = {"C01": ("calc", "convert"), "C03": ("calc",), "C17": ("invert", "invert2", "permute", "removeinc")}[pid]
+    want = {"C01": ("calc", "convert"), "C03": ("calc",), "C17": ("invert", "invert2", "permute", "removeinc", "convert-invert")}[pid]
     lines = []
     for f in ("ev-rand.ndjson", "ev-model.ndjson"):
         for l in open(ctx.path(f)):
